@@ -30,7 +30,7 @@ func c17DaemonJob(tier string) Job {
 		}
 		defer h.close()
 		base := int32(43000 + (os.Getpid()%200)*20)
-		h.putPod(cniPod{Name: "gp-1", Networks: "a", HostPort: base + 7})
+		h.putPod(cniPod{Name: "gp-1", Networks: "a", HostPort: base + 7, HostPort2: base + 9}) // two port mappings
 		h.putPod(cniPod{Name: "gp-2", Networks: "a", HostPort: base + 8})
 		// fake docker: every id this job does not know is running (other processes' containers are left alone)
 		d := &fakeDocker{states: map[string]string{}, unknown: "running"}
